@@ -30,6 +30,9 @@ def check(run):
     c07.close_terms(ck)
     # Watson mode / PCA: principal eigenpair
     n = sel.check_principal(run, A, 'pb_bss.utils::get_pca')
+    # ... of EVERY matrix of the stack: a per-matrix loop uses its index (the partial scipy solver of get_pca does not, and is dormant)
+    from .. import opt
+    opt.check_extent_loops(run, A, ['pb_bss.utils', 'pb_bss.distribution.'])
     fit = A.prog.func(D + 'complex_watson::ComplexWatsonTrainer._fit')
     g = A.graphs.get(fit)
     # mode is the first result of get_pca(covariance), concentration from the second
